@@ -436,6 +436,8 @@ class Explorer:
         r = R()
         r.prefix = list(prefix)
         r.trace = []
+        from . import proxy as _px
+        del _px._hash_registry[:]
         r.pos = 0
         r.pc = []
         r.known = {}
